@@ -474,7 +474,17 @@ func (s *Store) writeIndexFile() error {
 	if err != nil {
 		return fmt.Errorf("failed to marshal index file: %w", err)
 	}
-	return os.WriteFile(s.indexPath, indexJSON, 0666)
+	// write to a temporary file and rename it, so that index.json is replaced
+	// atomically and is never left half-written by a crash
+	tmpPath := s.indexPath + ".tmp"
+	if err := os.WriteFile(tmpPath, indexJSON, 0666); err != nil {
+		return err
+	}
+	if err := os.Rename(tmpPath, s.indexPath); err != nil {
+		os.Remove(tmpPath)
+		return err
+	}
+	return nil
 }
 
 // GC removes garbage from Store. Unsaved index will be lost. To prevent unexpected
